@@ -291,6 +291,7 @@ func openHarnessDb(w *wiring, dir string) (*harnessDb, error) {
 		return nil, err
 	}
 	h := &harnessDb{w: w, db: db, path: path, stores: map[string]*gStore{}, vetoes: map[string]bool{}, symToKey: map[string]string{}}
+	lastKeyToSym = map[string]string{}
 
 	// stores: roots first, then children
 	for pass := 0; pass < 2; pass++ {
@@ -374,6 +375,11 @@ func openHarnessDb(w *wiring, dir string) (*harnessDb, error) {
 				}
 				if f.Sym != "" {
 					h.symToKey[f.Sym] = f.Name
+					rootName := def.Name
+					if def.Parent != "" {
+						rootName = def.Parent
+					}
+					lastKeyToSym[rootName+"."+f.Name] = f.Sym
 				}
 			}
 			for _, s := range def.Sets {
@@ -437,6 +443,10 @@ func openHarnessDb(w *wiring, dir string) (*harnessDb, error) {
 	}
 	return h, nil
 }
+
+// lastKeyToSym maps "<root store>.<field key>" to the symbol name of the most recently opened harness
+// database, for code that addresses index buckets below the API (index paths use the symbol name)
+var lastKeyToSym = map[string]string{}
 
 type errHolder struct{ err error }
 
